@@ -96,6 +96,30 @@ TARGETS = [
          structs={"Self": ["key", "index", "previous_value"]}, try_into_len="proof_length"),
     dict(name="tbc_decrypter_new", file="src/tbc_header/decrypt.rs", fn="new", kind="function", ret="list N * N * N",
          structs={"Self": ["key", "index", "previous_value"]}, try_into_len="proof_length"),
+    dict(name="vanilla_unsplit", file="src/vanilla_header/encrypt.rs", fn="unsplit", kind="method", helpers=["is_pair_of"], readonly=True, self_value=True,
+         fields=[("session_key", ("arr", "u8")), ("index", "u8"), ("previous_value", "u8")], struct_params={"decrypter": [("session_key", ("arr", "u8")), ("index", "u8"), ("previous_value", "u8")]}, structs={"UnsplitCryptoError": [], "HeaderCrypto": ["decrypt", "encrypt"]},
+         ret="((list N * N * N) * (list N * N * N)) + unit"),
+    dict(name="vanilla_enc_is_pair_of", file="src/vanilla_header/encrypt.rs", fn="is_pair_of", kind="method", helpers=[], readonly=True,
+         fields=[("session_key", ("arr", "u8")), ("index", "u8"), ("previous_value", "u8")], struct_params={"other": [("session_key", ("arr", "u8")), ("index", "u8"), ("previous_value", "u8")]}, ret="bool"),
+    dict(name="vanilla_dec_is_pair_of", file="src/vanilla_header/decrypt.rs", fn="is_pair_of", kind="method", helpers=[], readonly=True, self_value="args",
+         param_method_calls={"is_pair_of": ("tr_vanilla_enc_is_pair_of", "bool")},
+         fields=[("session_key", ("arr", "u8")), ("index", "u8"), ("previous_value", "u8")], struct_params={"other": [("session_key", ("arr", "u8")), ("index", "u8"), ("previous_value", "u8")]}, ret="bool"),
+    dict(name="vanilla_split", file="src/vanilla_header/mod.rs", fn="split", kind="method", helpers=[], readonly=True,
+         fields=[("decrypt", ("struct", "Half")), ("encrypt", ("struct", "Half"))], ret="(list N * N * N) * (list N * N * N)"),
+    dict(name="tbc_split", file="src/tbc_header/mod.rs", fn="split", kind="method", helpers=[], readonly=True,
+         fields=[("decrypt", ("struct", "Half")), ("encrypt", ("struct", "Half"))], ret="(list N * N * N) * (list N * N * N)"),
+    dict(name="wrath_client_split", file="src/wrath_header/mod.rs", fn="split", nth=0, kind="method", helpers=[], readonly=True,
+         fields=[("decrypt", ("struct", "HalfBuf")), ("encrypt", ("struct", "Half"))], ret="(list N * N * N) * ((list N * N * N) * list N)"),
+    dict(name="wrath_server_split", file="src/wrath_header/mod.rs", fn="split", nth=1, kind="method", helpers=[], readonly=True,
+         fields=[("decrypt", ("struct", "Half")), ("encrypt", ("struct", "HalfBuf"))], ret="((list N * N * N) * list N) * (list N * N * N)"),
+    dict(name="vanilla_half_encrypt", file="src/vanilla_header/encrypt.rs", fn="encrypt", nth=0, kind="method", helpers=[], fields=[("session_key", ("arr", "u8")), ("index", "u8"), ("previous_value", "u8")],
+         out_params=["data"], cipher_calls={"encrypt": "tr_vanilla_encrypt_step"}),
+    dict(name="vanilla_half_decrypt", file="src/vanilla_header/decrypt.rs", fn="decrypt", nth=0, kind="method", helpers=[], fields=[("session_key", ("arr", "u8")), ("index", "u8"), ("previous_value", "u8")],
+         out_params=["data"], cipher_calls={"decrypt": "tr_vanilla_decrypt_step"}),
+    dict(name="tbc_half_encrypt", file="src/tbc_header/encrypt.rs", fn="encrypt", nth=0, kind="method", helpers=[], fields=[("key", ("arr", "u8")), ("index", "u8"), ("previous_value", "u8")],
+         out_params=["data"], cipher_calls={"encrypt": "tr_tbc_encrypt_step"}),
+    dict(name="tbc_half_decrypt", file="src/tbc_header/decrypt.rs", fn="decrypt", nth=0, kind="method", helpers=[], fields=[("key", ("arr", "u8")), ("index", "u8"), ("previous_value", "u8")],
+         out_params=["data"], cipher_calls={"decrypt": "tr_tbc_decrypt_step"}),
     dict(name="rc4_apply_keystream", file="src/rc4.rs", fn="apply_keystream", kind="method_slice_loop",
          fields=[("state", ("arr", "u8")), ("i", "u8"), ("j", "u8")],
          self_calls={"pseudo_random_generation": ("tr_rc4_prga", ["self.state", "self.i", "self.j"])}),
@@ -118,6 +142,16 @@ TARGETS = [
          structs={"Self": ["decrypt", "encrypt"]}, opt_calls={"ClientDecrypterHalf::new": ("tr_wrath_client_dec_new", ("struct", "Half")), "ClientEncrypterHalf::new": ("tr_wrath_client_enc_new", ("struct", "Half"))}),
     dict(name="wrath_server_crypto_new", file="src/wrath_header/mod.rs", fn="new", nth=1, kind="function", ret="(list N * N * N) * ((list N * N * N) * list N)",
          structs={"Self": ["decrypt", "encrypt"]}, opt_calls={"ServerDecrypterHalf::new": ("tr_wrath_server_dec_new", ("struct", "Half")), "ServerEncrypterHalf::new": ("tr_wrath_server_enc_new", ("struct", "Half"))}),
+    dict(name="wrath_inner_apply", file="src/wrath_header/inner_crypto/mod.rs", fn="apply", kind="method", helpers=[], fields=[("inner", ("struct", "Rc4"))],
+         out_params=["data"], mut_method_calls={"apply_keystream": ("tr_rc4_apply_keystream_step", 3, "slice")}),
+    dict(name="wrath_server_enc_encrypt", file="src/wrath_header/encrypt.rs", fn="encrypt", nth=0, kind="method", helpers=[],
+         fields=[("encrypt", ("struct", "Rc4")), ("server_header", ("arr", "u8"))], out_params=["data"], mut_method_calls={"apply": ("tr_wrath_inner_apply", 1, "whole")}),
+    dict(name="wrath_client_enc_encrypt", file="src/wrath_header/encrypt.rs", fn="encrypt", nth=1, kind="method", helpers=[],
+         fields=[("encrypt", ("struct", "Rc4"))], out_params=["data"], mut_method_calls={"apply": ("tr_wrath_inner_apply", 1, "whole")}),
+    dict(name="wrath_server_dec_decrypt", file="src/wrath_header/decrypt.rs", fn="decrypt", nth=0, kind="method", helpers=[],
+         fields=[("decrypt", ("struct", "Rc4"))], out_params=["data"], mut_method_calls={"apply": ("tr_wrath_inner_apply", 1, "whole")}),
+    dict(name="wrath_client_dec_decrypt", file="src/wrath_header/decrypt.rs", fn="decrypt", nth=1, kind="method", helpers=[],
+         fields=[("decrypt", ("struct", "Rc4")), ("header", ("arr", "u8"))], out_params=["data"], mut_method_calls={"apply": ("tr_wrath_inner_apply", 1, "whole")}),
     dict(name="wrath_from_small_array", file="src/wrath_header/mod.rs", fn="from_small_array", kind="function", ret="N * N", structs={"Self": ["size", "opcode"]}),
     dict(name="wrath_from_large_array", file="src/wrath_header/mod.rs", fn="from_large_array", kind="function", ret="N * N", structs={"Self": ["size", "opcode"]},
          free_helpers=[("clear_large_header", "src/wrath_header/decrypt.rs")]),
@@ -152,6 +186,9 @@ TARGETS = [
     dict(name="wrath_read_and_decrypt_client_header", file="src/wrath_header/decrypt.rs", fn="read_and_decrypt_client_header", kind="method", fields=[("decrypt", "opaque")], helpers=[],
          io_params={"reader": "reader"}, ext_params=["ext_apply"], ret="hdr",
          self_calls={"decrypt_client_header": ("tr_wrath_decrypt_client_header ext_apply", ["self.decrypt"], "hdr")}),
+    dict(name="bigint_to_padded_32", file="src/bigint.rs", fn="to_padded_32_byte_array_le", kind="method", helpers=[], readonly=True,
+         fields=[("value", "bigz")], ext_params_raw=["(be : backend)"], ret=("arr", "u8"),
+         self_pure_calls={"to_bytes_le": ("(to_bytes_le be s_value)", ("arr", "u8"))}),
     dict(name="srp_calculate_password_verifier", file="src/srp_internal.rs", fn="calculate_password_verifier", kind="formula",
          calls={"calculate_x": ("calculate_x", "pure")}),
     dict(name="srp_calculate_server_public_key", file="src/srp_internal.rs", fn="calculate_server_public_key", kind="formula",
@@ -166,6 +203,16 @@ TARGETS = [
     dict(name="matrix_get_matrix_card_seed", file="src/matrix_card.rs", fn="get_matrix_card_seed", kind="function", ret="u64", tape=True),
     dict(name="integrity_get_salt_value", file="src/integrity.rs", fn="get_salt_value", kind="function", ret=("arr", "u8"), tape=True,
          consts={"crate::INTEGRITY_SALT_LENGTH": ("integrity_salt_length", "u8")}),
+    dict(name="integrity_finalise", file="src/integrity.rs", fn="finalise", kind="function", ret=("arr", "u8")),
+    dict(name="integrity_checksum", file="src/integrity.rs", fn="checksum", kind="function", ret=("arr", "u8")),
+    dict(name="integrity_login_generic", file="src/integrity.rs", fn="login_integrity_check_generic", kind="function", ret=("arr", "u8"), consts={"crate::INTEGRITY_SALT_LENGTH": ("integrity_salt_length", "u8"), "SHA1_HASH_LENGTH": ("sha1_hash_length", "u8")},
+         opt_calls={"finalise": ("tr_integrity_finalise", ("arr", "u8"))}),
+    dict(name="integrity_login_windows", file="src/integrity.rs", fn="login_integrity_check_windows", kind="function", ret=("arr", "u8"), consts={"crate::INTEGRITY_SALT_LENGTH": ("integrity_salt_length", "u8"), "SHA1_HASH_LENGTH": ("sha1_hash_length", "u8")},
+         opt_calls={"finalise": ("tr_integrity_finalise", ("arr", "u8")), "checksum": ("tr_integrity_checksum", ("arr", "u8"))}),
+    dict(name="integrity_login_mac", file="src/integrity.rs", fn="login_integrity_check_mac", kind="function", ret=("arr", "u8"), consts={"crate::INTEGRITY_SALT_LENGTH": ("integrity_salt_length", "u8"), "SHA1_HASH_LENGTH": ("sha1_hash_length", "u8")},
+         opt_calls={"finalise": ("tr_integrity_finalise", ("arr", "u8"))}),
+    dict(name="integrity_reconnect", file="src/integrity.rs", fn="reconnect_integrity_check", kind="function", ret=("arr", "u8"), consts={"crate::INTEGRITY_SALT_LENGTH": ("integrity_salt_length", "u8"), "SHA1_HASH_LENGTH": ("sha1_hash_length", "u8")},
+         opt_calls={"finalise": ("tr_integrity_finalise", ("arr", "u8"))}),
     dict(name="vanilla_proof_seed_default", file="src/vanilla_header/mod.rs", fn="default", kind="function", ret="u32", tape=True, structs={"Self": ["seed"]}),
     dict(name="tbc_proof_seed_default", file="src/tbc_header/mod.rs", fn="default", kind="function", ret="u32", tape=True, structs={"Self": ["seed"]}),
     dict(name="wrath_proof_seed_default", file="src/wrath_header/mod.rs", fn="default", kind="function", ret="u32", tape=True, structs={"Self": ["seed"]}),
@@ -190,7 +237,24 @@ TARGETS = [
          sum_calls={"srp_internal_client::calculate_client_public_key": ("tr_srp_calculate_client_public_key be", ("arr", "u8"))},
          opt_calls={"calculate_u": ("tr_srp_calculate_u", ("arr", "u8")), "calculate_client_S": ("tr_srp_calculate_client_S be", ("arr", "u8")),
                     "calculate_interleaved": ("tr_srp_calculate_interleaved", ("arr", "u8"))}),
+    dict(name="server_acc_username", file="src/server.rs", fn="username", nth=0, kind="api", fields=["username", "password_verifier", "salt"]),
+    dict(name="server_acc_password_verifier", file="src/server.rs", fn="password_verifier", nth=0, kind="api", fields=["username", "password_verifier", "salt"]),
+    dict(name="server_acc_salt", file="src/server.rs", fn="salt", nth=0, kind="api", fields=["username", "password_verifier", "salt"]),
+    dict(name="server_acc_server_public_key", file="src/server.rs", fn="server_public_key", nth=0, kind="api", fields=["username", "server_public_key", "salt", "server_private_key", "password_verifier"]),
+    dict(name="server_acc_proof_salt", file="src/server.rs", fn="salt", nth=1, kind="api", fields=["username", "server_public_key", "salt", "server_private_key", "password_verifier"]),
+    dict(name="server_acc_session_key", file="src/server.rs", fn="session_key", nth=0, kind="api", fields=["username", "session_key", "reconnect_challenge_data"]),
+    dict(name="server_acc_reconnect_challenge_data", file="src/server.rs", fn="reconnect_challenge_data", nth=0, kind="api", fields=["username", "session_key", "reconnect_challenge_data"]),
+    dict(name="client_acc_session_key", file="src/client.rs", fn="session_key", nth=0, kind="api", fields=["username", "session_key"]),
+    dict(name="client_acc_client_proof", file="src/client.rs", fn="client_proof", nth=0, kind="api", fields=["username", "client_proof", "client_public_key", "session_key"]),
+    dict(name="client_acc_client_public_key", file="src/client.rs", fn="client_public_key", nth=0, kind="api", fields=["username", "client_proof", "client_public_key", "session_key"]),
     dict(name="key_check_public_key", file="src/key.rs", fn="check_public_key", kind="function", ret="unit + pk_error"),
+    dict(name="key_public_from_le_bytes", file="src/key.rs", fn="from_le_bytes", nth=1, kind="function", ret="list N + pk_error",
+         structs={"Self": ["key"]}, opt_calls={"check_public_key": ("tr_key_check_public_key", ("sum", "unit"))},
+         match_patterns={"Ok": ("inl", ["unit"]), "Err": ("inr", ["enum"])}),
+    dict(name="key_try_from_bigint", file="src/key.rs", fn="try_from_bigint", kind="formula", big_params=["b"], structs={"Self": ["key"]},
+         opt_calls={"Self::from_le_bytes": ("tr_key_public_from_le_bytes", ("sum", ("arr", "u8")))}),
+    dict(name="key_client_try_from_bigint", file="src/key.rs", fn="client_try_from_bigint", kind="formula", big_params=["b"], prime_params=["large_safe_prime"],
+         structs={"Self": ["key"]}),
     dict(name="normalized_string_new", file="src/normalized_string.rs", fn="inner", kind="function", ret="nstr_view + ns_error",
          consts={"MAXIMUM_STRING_LENGTH_IN_BYTES": ("max_string_length", "u8")}),
     dict(name="normalized_string_from_str", file="src/normalized_string.rs", fn="from_str", kind="function", ret="nstr_view + ns_error", opt_calls={"Self::new": ("tr_normalized_string_new", "res")}),
@@ -211,6 +275,10 @@ TARGETS = [
          fields=[("digit_count", "u8"), ("width", "u8"), ("height", "u8"), ("data", ("arr", "u8"))], helpers=[], ret=("arr", "u8"), readonly=True),
     dict(name="matrix_get_matrix_coordinates", file="src/matrix_card.rs", fn="get_matrix_coordinates", kind="method",
          fields=[("challenge_count", "u8"), ("height", "u8"), ("width", "u8"), ("coordinates", ("arr", "u8"))], helpers=[], ret="option (N * N)", readonly=True),
+    dict(name="matrix_get_matrix_card_size", file="src/matrix_card.rs", fn="get_matrix_card_size", kind="function", ret="usize"),
+    dict(name="matrix_from_data", file="src/matrix_card.rs", fn="from_data", kind="function", ret="option (N * N * N * list N)",
+         structs={"Self": ["digit_count", "width", "height", "data"]}, byte_types=["Vec<u8>"],
+         opt_calls={"Self::get_matrix_card_size": ("tr_matrix_get_matrix_card_size", "usize")}),
     dict(name="matrix_verifier_new", file="src/matrix_card.rs", fn="new", nth=1, kind="function",
          ret="N * N * N * list N * (list N * list N) * (list N * N * N)",
          structs={"Self": ["challenge_count", "height", "width", "coordinates", "hmac", "rc4"]},
@@ -256,6 +324,19 @@ TARGETS = [
          fields=[("seed", "u32")], calls={"calculate_world_server_proof": ("WorldProof.calculate_world_server_proof", "pure"), "ServerCrypto::new": ("Wrath.server_crypto_new", "nres")}),
     dict(name="skey_as_equal_slice", file="src/key.rs", fn="as_equal_slice", kind="method",
          fields=[("key", ("arr", "u8"))], helpers=[], ret=("arr", "u8"), readonly=True),
+    dict(name="srp_calculate_x", file="src/srp_internal.rs", fn="calculate_x", kind="function", ret=("arr", "u8"), byte_types=["NormalizedString", "Salt", "PublicKey", "SessionKey", "Proof", "ReconnectData", "LargeSafePrime"], identity=["Sha1Hash::from_le_bytes", "Proof::from_le_bytes", "as_le_bytes", "as_ref", "into"]),
+    dict(name="srp_calculate_server_proof", file="src/srp_internal.rs", fn="calculate_server_proof", kind="function", ret=("arr", "u8"), byte_types=["NormalizedString", "Salt", "PublicKey", "SessionKey", "Proof", "ReconnectData", "LargeSafePrime"], identity=["Sha1Hash::from_le_bytes", "Proof::from_le_bytes", "as_le_bytes", "as_ref", "into"]),
+    dict(name="srp_calculate_client_proof", file="src/srp_internal.rs", fn="calculate_client_proof", kind="function", ret=("arr", "u8"), byte_types=["NormalizedString", "Salt", "PublicKey", "SessionKey", "Proof", "ReconnectData", "LargeSafePrime"], identity=["Sha1Hash::from_le_bytes", "Proof::from_le_bytes", "as_le_bytes", "as_ref", "into"],
+         consts={"PRECALCULATED_XOR_HASH": ("xor_hash", ("arr", "u8")), "PROOF_LENGTH": ("proof_length", "u8")}),
+    dict(name="srp_calculate_reconnect_proof", file="src/srp_internal.rs", fn="calculate_reconnect_proof", kind="function", ret=("arr", "u8"), byte_types=["NormalizedString", "Salt", "PublicKey", "SessionKey", "Proof", "ReconnectData", "LargeSafePrime"], identity=["Sha1Hash::from_le_bytes", "Proof::from_le_bytes", "as_le_bytes", "as_ref", "into"],
+         consts={"PROOF_LENGTH": ("proof_length", "u8")}),
+    dict(name="srp_calculate_xor_hash", file="src/srp_internal.rs", fn="calculate_xor_hash", kind="function", ret=("arr", "u8"), byte_types=["NormalizedString", "Salt", "PublicKey", "SessionKey", "Proof", "ReconnectData", "LargeSafePrime"], identity=["Sha1Hash::from_le_bytes", "Proof::from_le_bytes", "as_le_bytes", "as_ref", "into", "as_u8"],
+         scalar_types={"Generator": "u8"}, consts={"SHA1_HASH_LENGTH": ("sha1_hash_length", "u8")}),
+    dict(name="srp_calculate_client_proof_custom", file="src/srp_internal_client.rs", fn="calculate_client_proof_with_custom_value", kind="function", ret=("arr", "u8"), byte_types=["NormalizedString", "Salt", "PublicKey", "SessionKey", "Proof", "ReconnectData", "LargeSafePrime"], identity=["Sha1Hash::from_le_bytes", "Proof::from_le_bytes", "as_le_bytes", "as_ref", "into", "as_u8"],
+         scalar_types={"Generator": "u8"}, consts={"PROOF_LENGTH": ("proof_length", "u8")},
+         opt_calls={"calculate_xor_hash": ("tr_srp_calculate_xor_hash", ("arr", "u8"))}),
+    dict(name="world_calculate_world_server_proof", file="src/vanilla_header/internal.rs", fn="calculate_world_server_proof", kind="function", ret=("arr", "u8"),
+         byte_types=["NormalizedString", "SessionKey"], identity=["Proof::from_le_bytes", "as_le_bytes", "as_ref", "into"]),
     dict(name="srp_calculate_u", file="src/srp_internal.rs", fn="calculate_u", kind="function", ret=("arr", "u8"),
          byte_types=["PublicKey"], identity=["Sha1Hash::from_le_bytes", "as_le_bytes", "into"]),
     dict(name="srp_calculate_interleaved", file="src/srp_internal.rs", fn="calculate_interleaved", kind="function", ret=("arr", "u8"),
@@ -357,7 +438,13 @@ def method(t, src):
         helpers[h] = ([x for x in split_params(hs) if x[0] != "self"], blk[0][1])
     env, args, argtys = {}, [], {}
     io = t.get("io_params", {})
+    sparams = t.get("struct_params", {})
     for name, ty in ps[1:]:
+        if name in sparams:
+            for f_, fty in sparams[name]:
+                gname = "v_%s_%s" % (name, f_)
+                env["%s.%s" % (name, f_)] = (gname, fty); args.append(gname); argtys[gname] = fty
+            continue
         if name in io: pt, mut = io[name], True
         else: pt, mut = param_type(ty)
         env[name] = ("v_" + name, pt); args.append("v_" + name); argtys["v_" + name] = pt
@@ -379,6 +466,12 @@ def method(t, src):
     g.externs = dict(t.get("externs", {}))
     g.enums = dict(t.get("enums", {})); g.ctor_calls = dict(t.get("ctors", {})); g.opt_calls = dict(t.get("opt_calls", {}))
     g.self_calls = dict(t.get("self_calls", {})); g.mut_method_calls = dict(t.get("mut_method_calls", {}))
+    g.struct_params = {n_: [f_ for f_, _ in fs_] for n_, fs_ in sparams.items()}
+    g.structs = dict(t.get("structs", {}))
+    if t.get("self_value") == "args": g.self_tuple = " ".join("s_" + f for f, _ in t["fields"])
+    elif t.get("self_value"): g.self_tuple = "(" + ", ".join("s_" + f for f, _ in t["fields"]) + ")"
+    g.param_method_calls = dict(t.get("param_method_calls", {})); g.self_pure_calls = dict(t.get("self_pure_calls", {}))
+    g.cipher_calls = dict(t.get("cipher_calls", {}))
     blk = Parser(tokenize(body)).block()
     g.usize_vars = usize_variables(blk)
     fields = ["s_" + f for f, _ in t["fields"]]
@@ -389,7 +482,7 @@ def method(t, src):
         if ro:
             if tail is None: raise Untranslatable("read-only method without a result")
             return "Some %s" % tail[0]
-        extra = "".join(", " + n_ for n_ in ionames)
+        extra = "".join(", " + n_ for n_ in ionames) + "".join(", " + g.env[n_][0] for n_ in t.get("out_params", []))
         if tail is None: return "Some (%s, tt%s)" % (st, extra)
         return "Some (%s, %s%s)" % (st, tail[0], extra)
     g.fn_final = final
@@ -397,7 +490,8 @@ def method(t, src):
     text = g.stmts(blk, final)
     def cty(ty):
         if ty == "hmac": return "(list N * list N)"
-        if isinstance(ty, tuple) and ty[0] == "struct": return {"Rc4": "(list N * N * N)"}[ty[1]]
+        if ty == "bigz": return "Z"
+        if isinstance(ty, tuple) and ty[0] == "struct": return {"Rc4": "(list N * N * N)", "Half": "(list N * N * N)", "HalfBuf": "((list N * N * N) * list N)"}[ty[1]]
         return "list N" if isinstance(ty, tuple) else ("ST" if ty == "opaque" else "N")
     tys = " ".join("(%s : %s)" % ("s_" + f, cty(ty)) for f, ty in t["fields"])
     if any(ty == "opaque" for _, ty in t["fields"]):
@@ -406,25 +500,27 @@ def method(t, src):
     sty = "(" + " * ".join(cty(ty) for _, ty in t["fields"]) + ")"
     rty = "list N" if isinstance(t.get("ret"), tuple) else (t["ret"] if isinstance(t.get("ret"), str) and t["ret"] not in BITS else ("N" if t.get("ret") else "unit"))
     fuel = "(fuel : nat) " if g.uses_fuel else ""
+    fuel += "".join(x + " " for x in t.get("ext_params_raw", []))
     def aty(a):
         if argtys[a] == "reader": return "rscript"
         if argtys[a] == "writer": return "(list N * wscript)%type"
         return "list N" if isinstance(argtys[a], tuple) else "N"
-    rann = "" if io else ": option %s " % (("(%s)" % rty) if ro else "(%s * (%s))" % (sty, rty))
+    rann = "" if (io or t.get("out_params")) else ": option %s " % (("(%s)" % rty) if ro else "(%s * (%s))" % (sty, rty))
     head = "Definition tr_%s %s%s %s%s:=\n  %s." % (t["name"], fuel, tys, "".join("(%s : %s) " % (a, aty(a)) for a in args), rann, text)
     note = "(* %s fn %s(&mut self%s); fields %s; helpers inlined: %s *)" % (t["file"], t["fn"], "".join(", " + a for a in args), " ".join(fields), " ".join(helpers) or "-")
     return note + "\n" + head
 
 def formula(t, src):
     """a big-integer formula of srp_internal(.rs|_client.rs): byte arrays in, modelled integer operations"""
-    ps, ret, body = free_fn(src, t["fn"])
+    ps, ret, body = free_fn(src, t["fn"], t.get("nth", 0))
     env, names = {}, []
     for name, ty in ps:
-        if name in t.get("gen_params", ()): env[name] = ("v_" + name, "u8"); names.append("(v_%s : N)" % name)
+        if name in t.get("big_params", ()): env[name] = ("v_" + name, "big"); names.append("(v_%s : Z)" % name)
+        elif name in t.get("gen_params", ()): env[name] = ("v_" + name, "u8"); names.append("(v_%s : N)" % name)
         else: env[name] = ("v_" + name, ("arr", "u8")); names.append("(v_%s : list N)" % name)
     g = Gen(env, dict(CONSTS))
     g.identity_calls = set(IDENTITY) | {"SKey::from_le_bytes"}
-    g.calls = dict(t.get("calls", {}))
+    g.calls = dict(t.get("calls", {})); g.opt_calls = dict(t.get("opt_calls", {})); g.structs = dict(t.get("structs", {})); g.enums = dict(ENUMS)
     g.big = dict(be="be", into=t.get("into"), gen_params=set(t.get("gen_params", ())), prime_params=set(t.get("prime_params", ())),
                  res_calls=dict(t.get("res_calls", {})))
     blk = Parser(tokenize(body)).block()
@@ -448,6 +544,7 @@ def function(t, src):
         try: pt, mut = param_type(ty)
         except Untranslatable:
             if re.sub(r"^&\s*(mut\s+)?", "", ty).strip() in t.get("byte_types", ()): pt, mut = ("arr", "u8"), False
+            elif re.sub(r"^&\s*(mut\s+)?", "", ty).strip() in t.get("scalar_types", {}): pt, mut = t["scalar_types"][re.sub(r"^&\s*(mut\s+)?", "", ty).strip()], False
             else: raise
         env[name] = ("v_" + name, pt); names.append(("v_" + name, pt))
         if mut and isinstance(pt, tuple): muts.append(name)
@@ -456,6 +553,7 @@ def function(t, src):
     g.enums = dict(ENUMS); g.ctor_calls = dict(CTORS); g.structs = dict(STRUCTS_FN); g.opt_calls = dict(t.get("opt_calls", {}))
     g.structs.update(t.get("structs", {}))
     g.mut_method_calls = dict(t.get("mut_method_calls", {})); g.try_into_len = t.get("try_into_len")
+    g.match_patterns = dict(t.get("match_patterns", {}))
     g.struct_params = {n_: [f_ for f_, _ in fs_] for n_, fs_ in sparams.items()}
     g.param_method_calls = dict(t.get("param_method_calls", {})); g.struct_method_calls = dict(t.get("struct_method_calls", {}))
     g.method_calls = dict(t.get("method_calls", {})); g.identity_calls = set(t.get("identity", []))
